@@ -1,6 +1,9 @@
 SPECIFICATION Spec
 CONSTANTS
-  ShapeUniverse <- QuickShapes
+  Mode = "enum"
+  UseBindings = {"math", "vmod", "vmod2"}
+  SitePatterns <- QuickPatterns
+  SelShapes = {}
   KeepTrace = FALSE
 INVARIANTS ImportedAtMostOnce LoadedBeforeUse ExactlyTheUsedOnes OnlyWhenNeeded Emit
 CHECK_DEADLOCK FALSE
